@@ -77,6 +77,29 @@ def extra_domain(pkg, name, R, lib, carts, scal):
         R.assume(scal["u"] ** 2 + scal["i"] ** 2 + scal["j"] ** 2 + scal["k"] ** 2 == 1)
 
 
+def cart_abstract(R, lib, v, sysm, tag):
+    """Cartesian components of v as abstraction symbols linked to their defining expressions: the
+    Cartesian run then works on atoms (its own identities stay small), the links are used lazily"""
+    _, coords = lanes.stored(v)
+    if sysm == lanes.CART[len(sysm) + 1]:
+        return list(coords)
+    spatial = spec.decode(lib, sysm[:2] if len(sysm) > 2 else sysm, coords[:3] if len(sysm) > 2 else coords)
+    names = "xyz"
+    out = []
+    for i, e in enumerate(spatial):
+        if (i < 2 and sysm[0] == "xy") or (i == 2 and sysm[1] == "z"):
+            out.append(coords[i])
+        else:
+            out.append(R.abstract(f"c{names[i]}{tag}", e))
+    if len(sysm) == 3:
+        if sysm[2] == "t":
+            out.append(coords[3])
+        else:
+            tau = coords[3]
+            out.append(R.abstract(f"ct{tag}", tau * tau + out[0] * out[0] + out[1] * out[1] + out[2] * out[2], nonneg_root=True))
+    return out
+
+
 def _coord_names(system):
     out = list(lanes.AZ_NAMES[system[0]])
     return out + list(system[1:])
@@ -87,7 +110,7 @@ def _coord_names(system):
 SIGN_SPLIT = {("lorentz", "Et"), ("lorentz", "to_beta3")}
 
 
-def make_fn(pkg, name, module, sig, upper=None, momentum=(False, False), tsign=0):
+def make_fn(pkg, name, module, sig, upper=None, momentum=(False, False), tsign=0, abstract=True):
     """obligation for one dispatch_map entry.  upper: extra stored coordinates appended to every
     vector operand (exercises _wrap_result pass-through of a lower-dimensional operation)."""
     params = common.dispatch_params(module)
@@ -105,7 +128,7 @@ def make_fn(pkg, name, module, sig, upper=None, momentum=(False, False), tsign=0
                     sysm = sysm + tuple(upper[vi])
                 mom = momentum[vi] if vi < len(momentum) else False
                 v = R.vec(sysm, str(vi + 1), momentum=mom)
-                c = spec.cart(lib, v)
+                c = cart_abstract(R, lib, v, sysm, str(vi + 1)) if (abstract and R.mode == "sym") else spec.cart(lib, v)
                 vc = R.build(lanes.CART[len(sysm) + 1], c, momentum=mom)
                 args_s.append(v)
                 args_c.append(vc)
@@ -191,6 +214,12 @@ UPPERS = {
 }
 
 
+def _fam(key, pkg, name, module, sig, functions, **kw):
+    f = Family(key, make_fn(pkg, name, module, sig, **kw), functions=functions, tier="quick")
+    f.alt_fn = make_fn(pkg, name, module, sig, abstract=False, **kw)
+    return f
+
+
 def families(tier="quick"):
     fams = []
     for pkg, name, module in common.compute_modules():
@@ -201,24 +230,12 @@ def families(tier="quick"):
         for k, sig in enumerate(module.dispatch_map):
             sname = common.sig_name(sig)
             impl = module.dispatch_map[sig][0]
+            fn_impl = fnames + [f"{impl.__module__}.{impl.__qualname__}"]
             if (pkg, name) in SIGN_SPLIT and sname.endswith("|t"):
                 for sgn, tag in ((1, "@t>0"), (-1, "@t<0")):
-                    fams.append(
-                        Family(
-                            f"{PID}/{pkg}.{name}/{sname}{tag}",
-                            make_fn(pkg, name, module, sig, tsign=sgn),
-                            functions=fnames + [f"{impl.__module__}.{impl.__qualname__}"],
-                        )
-                    )
+                    fams.append(_fam(f"{PID}/{pkg}.{name}/{sname}{tag}", pkg, name, module, sig, fn_impl, tsign=sgn))
                 continue
-            fams.append(
-                Family(
-                    f"{PID}/{pkg}.{name}/{sname}",
-                    make_fn(pkg, name, module, sig),
-                    functions=fnames + [f"{impl.__module__}.{impl.__qualname__}"],
-                    tier="quick",
-                )
-            )
+            fams.append(_fam(f"{PID}/{pkg}.{name}/{sname}", pkg, name, module, sig, fn_impl))
             # higher-dimensional operands through the same entry (pass-through in _wrap_result)
             for hd in range(d + 1, 5):
                 ups = UPPERS[(d, hd)]
@@ -227,27 +244,13 @@ def families(tier="quick"):
                         full = tier == "thorough"
                         if not full and ui != (k % len(ups)):
                             continue
-                        fams.append(
-                            Family(
-                                f"{PID}/{pkg}.{name}/{sname}+{'_'.join(up)}",
-                                make_fn(pkg, name, module, sig, upper=[up], momentum=(k % 2 == 1, False)),
-                                functions=fnames + ["VectorObject%dD._wrap_result" % hd],
-                                tier="quick",
-                            )
-                        )
+                        fams.append(_fam(f"{PID}/{pkg}.{name}/{sname}+{'_'.join(up)}", pkg, name, module, sig, fnames + ["VectorObject%dD._wrap_result" % hd], upper=[up], momentum=(k % 2 == 1, False)))
                 elif nvec == 2 and (pkg, name) in BINARY_HIGHER:
                     hi = BINARY_HIGHER[(pkg, name)]
                     up1 = ups[k % len(ups)]
                     up2 = ups[(k // 2 + 1) % len(ups)]
                     upper = [up1 if hi[0] else (), up2 if hi[1] else ()]
-                    if not hi[0]:
-                        upper[0] = ()
                     fams.append(
-                        Family(
-                            f"{PID}/{pkg}.{name}/{sname}+{'_'.join(upper[0])}+{'_'.join(upper[1])}",
-                            make_fn(pkg, name, module, sig, upper=upper, momentum=(False, k % 2 == 0)),
-                            functions=fnames + ["VectorObject%dD._wrap_result" % hd],
-                            tier="quick",
-                        )
+                        _fam(f"{PID}/{pkg}.{name}/{sname}+{'_'.join(upper[0])}+{'_'.join(upper[1])}", pkg, name, module, sig, fnames + ["VectorObject%dD._wrap_result" % hd], upper=upper, momentum=(False, k % 2 == 0))
                     )
     return fams
